@@ -58,6 +58,17 @@ def make_spec(alpha, beta, side, topo, cur, w_init):
     if topo == 2:
         els += [{'k': 'S', 'z': 12, 'J': [0.5, 'gm^2']}, {'k': 'S', 'z': 30, 'J': [3.0, 'gm^2']}]
         links += [{'t': 'J'}, {'t': 'G', 'eta': 0.9}]
+    if topo in (3, 4):
+        # a second worm stage with a mild, never self-locking friction: before (3) or after (4) the stage under test
+        free = [{'k': 'Wg', 'starts': 3, 'J': [1.0, 'gm^2'], 'beta': [15.0, 'deg'], 'alpha': [20.0, 'deg']},
+                {'k': 'Ww', 'z': 24, 'J': [4.0, 'gm^2'], 'beta': [15.0, 'deg'], 'alpha': [20.0, 'deg']}]
+        fl = [{'t': 'J'}, {'t': 'W', 'f': 0.05}]
+        if topo == 3:
+            els = [els[0]] + free + els[1:]
+            links = fl + links
+        else:
+            els = els + free
+            links = links + fl
     return {'elements': els, 'links': links, 'load': ['const', 0.0],
             'init': {'theta': [0.0, 'rad'], 'w': [w_init, 'rad/s']}}
 
@@ -84,7 +95,7 @@ def shards(tier):
     # deviation-bounded sequences on every configuration (single-axis deviations of dt/motor/init/topology)
     for a, b in geometries():
         for side in ('lock', 'free'):
-            for topo in (1, 2):
+            for topo in ((1, 2, 3, 4) if (a, b) in ((20.0, 10.0), (14.5, 5.0)) else (1, 2)):
                 cfgs = [dict(BASE, alpha=a, beta=b, side=side, topo=topo)]
                 cfgs.append(dict(cfgs[0], cur=False))
                 cfgs.append(dict(cfgs[0], w=INITW[1], wunit='rpm'))
